@@ -382,6 +382,9 @@ fn project_case_in(ctx: &Ctx, p: &GenProject, rec: &Rec, dir: &Path, with_binary
     if p.sugared_defs > 0 {
         rec.class("projects_with_tuple_or_anonymous_component_statements");
     }
+    if p.recursive_templates > 0 {
+        rec.class("projects_with_template_instantiating_itself");
+    }
     let mut after = 0;
     for r in &reference.reports {
         check_report(r, &reference.files, Some(&ix), rec)?;
